@@ -1,5 +1,5 @@
 (* C09 proofs, part 10: concrete files.
-   - what the code as it is now (cfg_pre5) still falsifies: a locator rank used as a size, role lists with fillers;
+   - what the readers before fixes/C09_5 (cfg_pre5) falsified: a locator rank used as a size, role lists with fillers;
    - regression: the files that broke the code before the fixes C09_1..4 (cfg_asis) and their clean failure now;
    - non-vacuity: valid files load to the same objects under the three configurations. *)
 From Coq Require Import List ZArith QArith Bool Lia.
@@ -12,7 +12,7 @@ Definition asis_env (f : list Z) : env := mkEnv cfg_asis 268435456 (S (length f)
 Definition pre5_env (f : list Z) : env := mkEnv cfg_pre5 268435456 (S (length f)) (Z.of_nat (length f)) p_none.
 Definition fix_env (f : list Z) : env := mkEnv cfg_fixed 268435456 (S (length f)) (Z.of_nat (length f)) p_none.
 
-(* ---------------------------------------------------------------- the code as it is now *)
+(* ---------------------------------------------------------------- before fixes/C09_5 (cfg_pre5) *)
 Lemma now_locsize : load_Db (pre5_env w_locsize) w_locsize = Crashed (Throw 1 16).
 Proof. vm_compute. reflexivity. Qed.
 (* below the cap the request is served: 400 kB of role list for a 21-byte file *)
